@@ -670,3 +670,112 @@ pub fn icmp_parse(v6: bool, peer: IpAddr, packet: Bytes) -> Result<VIcmpParsed, 
         encoded,
     })
 }
+
+// ---------------------------------------------------------------------------------------------
+// UDP multiplexer: udp_pipe::DuplexPipe wired to the real direct forwarder multiplexer
+// ---------------------------------------------------------------------------------------------
+
+#[derive(Debug, Clone, PartialEq, Eq, Hash)]
+pub struct VUdpOut {
+    pub source: SocketAddr,
+    pub destination: SocketAddr,
+    pub payload: Vec<u8>,
+}
+
+/// Mirror of the downstream datagram source (client -> endpoint)
+#[async_trait]
+pub trait VUdpSource: Send {
+    async fn read(&mut self) -> io::Result<VUdpIn>;
+}
+
+/// Mirror of the downstream datagram sink (endpoint -> client); `Ok(false)` = dropped
+#[async_trait]
+pub trait VUdpSink: Send {
+    async fn write(&mut self, d: VUdpOut) -> io::Result<bool>;
+}
+
+struct UdpSourceIn(Box<dyn VUdpSource>);
+struct UdpSinkIn(Box<dyn VUdpSink>);
+
+#[async_trait]
+impl crate::datagram_pipe::Source for UdpSourceIn {
+    type Output = downstream::UdpDatagram;
+    fn id(&self) -> log_utils::IdChain<u64> {
+        log_utils::IdChain::empty()
+    }
+    async fn read(&mut self) -> io::Result<downstream::UdpDatagram> {
+        let d = self.0.read().await?;
+        Ok(downstream::UdpDatagram {
+            meta: downstream::UdpDatagramMeta {
+                source: d.source,
+                destination: d.destination,
+                app_name: d.app_name,
+            },
+            payload: Bytes::from(d.payload),
+        })
+    }
+}
+
+#[async_trait]
+impl crate::datagram_pipe::Sink for UdpSinkIn {
+    type Input = forwarder::UdpDatagram;
+    async fn write(&mut self, d: forwarder::UdpDatagram) -> io::Result<crate::datagram_pipe::SendStatus> {
+        let sent = self
+            .0
+            .write(VUdpOut {
+                source: d.meta.source,
+                destination: d.meta.destination,
+                payload: d.payload.to_vec(),
+            })
+            .await?;
+        Ok(if sent {
+            crate::datagram_pipe::SendStatus::Sent
+        } else {
+            crate::datagram_pipe::SendStatus::Dropped
+        })
+    }
+}
+
+/// `udp_pipe::DuplexPipe::new(..).exchange()` wired exactly as `Tunnel::on_datagram_mux_request`
+/// wires it for the direct forwarder. `metrics(outgoing, n)` is the production metrics callback.
+pub async fn run_udp_pipe<F>(
+    ctx: &VContext,
+    client: (Box<dyn VUdpSource>, Box<dyn VUdpSink>),
+    timeout: Duration,
+    metrics: F,
+) -> io::Result<()>
+where
+    F: Fn(bool, usize) + Send + Sync,
+{
+    use crate::datagram_pipe::DuplexPipe as _;
+    let (fwd_shared, fwd_source, fwd_sink) =
+        crate::udp_forwarder::make_multiplexer(ctx.0.clone(), log_utils::IdChain::empty())?;
+    let mut p = crate::udp_pipe::DuplexPipe::new(
+        (Box::new(UdpSourceIn(client.0)), Box::new(UdpSinkIn(client.1))),
+        (fwd_shared, fwd_source, fwd_sink),
+        move |d, n| metrics(d == pipe::SimplexDirection::Outgoing, n),
+        timeout,
+    );
+    p.exchange().await
+}
+
+#[derive(Debug, Clone, PartialEq, Eq, Default)]
+pub struct VMetricsSnapshot {
+    pub client_sessions: Vec<(String, i64)>,
+    pub outbound_tcp_sockets: i64,
+    pub outbound_udp_sockets: i64,
+    pub inbound_traffic_bytes: Vec<(String, u64)>,
+    pub outbound_traffic_bytes: Vec<(String, u64)>,
+}
+
+/// The live values of the series behind METRICS.md (read from the gauges/counters themselves)
+pub fn metrics_snapshot(ctx: &VContext) -> VMetricsSnapshot {
+    let (s, t, u, i, o) = ctx.0.metrics.verif_snapshot();
+    VMetricsSnapshot {
+        client_sessions: s,
+        outbound_tcp_sockets: t,
+        outbound_udp_sockets: u,
+        inbound_traffic_bytes: i,
+        outbound_traffic_bytes: o,
+    }
+}
